@@ -170,7 +170,7 @@ struct Emitter
             if (!first)
                 k += ", ";
             first = false;
-            k += p->getType().getCanonicalType().getAsString(PP);
+            k += p->getType().getCanonicalType().getUnqualifiedType().getAsString(PP);
         }
         k += ")";
         return k;
@@ -192,7 +192,7 @@ struct Emitter
             if (!first)
                 k += ", ";
             first = false;
-            k += p->getType().getCanonicalType().getAsString(PP);
+            k += p->getType().getCanonicalType().getUnqualifiedType().getAsString(PP);
         }
         k += ")";
         if (auto* m = dyn_cast<CXXMethodDecl>(f); m && m->isConst())
